@@ -38,7 +38,11 @@ META = {
             "configuration-computed boolean (call-site rule shared with C26, restricted to the matching elements).",
     "note": "Level 'other': in the singlet sector the a_s^3 L^1 coefficient (which needs the three-loop singlet anomalous dimensions) "
             "and the heavy-input column beyond first order (not implemented in the tree) are not decided; third-order sum rules and the "
-            "non-singlet a_s^3 L^1 coefficient hold only to the accuracy of the parametrisations.",
+            "non-singlet a_s^3 L^1 coefficient hold only to the accuracy of the parametrisations. The polarised second-order elements are not "
+            "decided beyond first order: evaluated with the same recursion, five of the six gluon/light-quark-column entries agree to "
+            "1e-30, the heavy<-gluon single logarithm differs from the prediction by an nf-independent amount, which may be a "
+            "scheme convention (Larin vs M scheme of the cited results) - not established either way, hence neither claimed nor "
+            "reported.",
     "technique": "partial evaluation at the sum-rule moments + exact special values of harmonic sums; differentiation in L + polynomial identity testing against anomalous dimensions extracted from the tree; definite-parity-flag call-site rule over the matching elements",
     "engine": "sa",
 }
